@@ -597,7 +597,7 @@ class SubprocSpec:
             raise xt.XonshError(msg)
 
     def get_command_str(self):
-        return " ".join(arg for arg in self.args)
+        return " ".join(map(str, self.args))
 
     def close(self):
         """Release any pipe wrappers and channels held by this spec.
